@@ -60,12 +60,18 @@ Record row := {
   r_start : Z;
   r_stop : Z }.
 
+(** a query value for seqid / biotype / name: absent, one string ([=] or [LIKE]),
+    or a list / tuple / set of strings ([col IN (?, ...)]: exact, case-sensitive
+    equality with one of them; the empty collection selects nothing) *)
+Inductive qval := QAny | QOne (s : str) | QIn (l : list str).
+
 Record query := {
-  q_biotype : option str;
-  q_seqid : option str;
-  q_name : option str;
+  q_biotype : qval;
+  q_seqid : qval;
+  q_name : qval;
   q_strand : option str;
   q_attrs : option str;
+  q_attrs_lit : bool;          (* which rule the source follows for % and _ inside the attributes text, see attrs_cond *)
   q_on_aln : option bool;
   q_start : option Z;
   q_stop : option Z;
@@ -83,17 +89,43 @@ Definition str_cond (qv : option str) (col : option str) : bool :=
       end
   end.
 
+(** [_matching_conditions]: [isinstance(val, (tuple, set, list))] -> IN, else as [str_cond] *)
+Definition val_cond (qv : qval) (col : option str) : bool :=
+  match qv with
+  | QAny => true
+  | QOne v => str_cond (Some v) col
+  | QIn l => match col with None => false | Some c => existsb (fun v => str_eqb v c) l end
+  end.
+
 (** [_get_records_matching]: attributes is wrapped in %…% unless it contains "%%" *)
 Definition attrs_pattern (a : str) : str :=
   if has_pctpct a then a else 37 :: a ++ [37].
 
-(** python truthiness of the attributes argument: None and "" are skipped *)
-Definition attrs_cond (qv : option str) (col : option str) : bool :=
+(** [t] occurs in [s], ASCII letters compared without case (LIKE '%t%' with every character of t literal) *)
+Fixpoint prefix_ci (t s : str) : bool :=
+  match t, s with
+  | [], _ => true
+  | a :: t', b :: s' => chr_eq_ci a b && prefix_ci t' s'
+  | _ :: _, [] => false
+  end.
+Fixpoint contains_ci (t s : str) : bool :=
+  prefix_ci t s || match s with [] => false | _ :: s' => contains_ci t s' end.
+
+(** python truthiness of the attributes argument: None and "" are skipped.
+    [lit = false]: the text is wrapped in %...% and used as a LIKE pattern, so a
+    % or _ inside it is a wildcard (the source as first read, finding C17-6);
+    [lit = true]: the wildcards of the text are escaped (notes/proposed_fixes/C17-6.diff),
+    the text must occur in the column.  "%%" marks a caller's own pattern in both. *)
+Definition attrs_cond_v (lit : bool) (qv : option str) (col : option str) : bool :=
   match qv with
   | None => true
   | Some [] => str_cond (Some []) col
-  | Some a => str_cond (Some (attrs_pattern a)) col
+  | Some a =>
+      if lit && negb (has_pctpct a)
+      then match col with None => false | Some c => contains_ci a c end
+      else str_cond (Some (attrs_pattern a)) col
   end.
+Definition attrs_cond (qv : option str) (col : option str) : bool := attrs_cond_v false qv col.
 
 Definition bool_cond (qv : option bool) (col : option bool) : bool :=
   match qv with
@@ -120,11 +152,11 @@ Section Window.
       ([on_alignment] is only a column of the user table; it is dropped from
       the conditions for the others) *)
   Definition row_match (q : query) (r : row) : bool :=
-    str_cond (q_biotype q) (r_biotype r)
-    && str_cond (q_seqid q) (r_seqid r)
-    && str_cond (q_name q) (r_name r)
+    val_cond (q_biotype q) (r_biotype r)
+    && val_cond (q_seqid q) (r_seqid r)
+    && val_cond (q_name q) (r_name r)
     && str_cond (q_strand q) (r_strand r)
-    && attrs_cond (q_attrs q) (r_attrs r)
+    && attrs_cond_v (q_attrs_lit q) (q_attrs q) (r_attrs r)
     && (if r_table r =? 1 then bool_cond (q_on_aln q) (r_on_aln r) else true)
     && window q r.
 
